@@ -1,9 +1,56 @@
 """R-SURR — every comparison that classifies a UTF-16 code unit (or its scalar image) inside the surrogate range denotes
-exactly the high surrogates D800-DBFF, the low surrogates DC00-DFFF or all surrogates D800-DFFF (exact interval extraction)."""
+exactly the high surrogates D800-DBFF, the low surrogates DC00-DFFF or all surrogates D800-DFFF (exact interval extraction).
+
+A test is judged in its context: the set of values of the tested unit that can reach the comparison at all (R-RANGE reach sets,
+restarted at every definition of the unit), so that `D800 <= u && u <= DBFF`, `matches!(u, 0xD800..=0xDBFF)`, an
+`else if u < 0xDC00` under an is-surrogate test and `u.wrapping_sub(0xD800) <= 0x3FF` are the same test."""
 from mirlib import *
 from ranges import *
 
 HI, LO, SUR = ISet.of((0xD800, 0xDBFF)), ISet.of((0xDC00, 0xDFFF)), ISet.of((0xD800, 0xDFFF))
+
+
+def leaf_entries(b, leaf):
+    """blocks at which the value denoted by `leaf` is (re)defined: there it ranges over its whole domain again"""
+    if leaf[0] == 'loc':
+        if leaf[1] <= b.arg_count:
+            return [0]
+        return sorted({bi for bi, si, k, n in b.defs.get(leaf[1], [])})
+    out = set()
+    r = Resolver(b)
+    for l in range(b.arg_count + 1, len(b.locals)):
+        sd = b.single_def(l)
+        if sd is None:
+            continue
+        if sd[2] == 'assign' and 'use' in sd[3]['rv'] and op_place(sd[3]['rv']['use']) is not None and not op_place(sd[3]['rv']['use'])['p']:
+            continue          # a plain copy of another local: not where the value comes into being
+        try:
+            if r.local(l) == leaf:
+                out.add(sd[0])
+        except RecursionError:
+            continue
+    return sorted(out)
+
+
+def contexts(f, b, preds):
+    """{id(pred): ISet of leaf values that can reach the comparison}"""
+    out = {}
+    by_leaf = {}
+    for p in preds:
+        by_leaf.setdefault((p['leaf'], p['bits'], p['N']), []).append(p)
+    for (leaf, bits, N), ps in by_leaf.items():
+        full = ISet.of((0, N - 1))
+        ents = leaf_entries(b, leaf)
+        ra = None
+        if ents:
+            try:
+                ra = RangeAnalysis(f, b, {leaf}, bits, full, entries=ents, N=N, opaque_ok=True)
+            except Exception:
+                ra = None
+        for p in ps:
+            ctx = ra.reach_of(p['bb']) if ra is not None else full
+            out[id(p)] = ctx if ctx else full
+    return out
 
 
 def run(rep, f, c, rule, want=lambda n: True):
@@ -11,16 +58,18 @@ def run(rep, f, c, rule, want=lambda n: True):
     for name, b in sorted(f.bodies.items()):
         if not want(name) or name.startswith('mem::is_') or 'bidi' in name:
             continue
-        for p in scalar_predicates(f, b):
-            if p['bits'] not in (16, 32) or p['true_set'] is None:
-                continue
-            if p['leaf'][0] == 'call' and 'bitand' in (p['leaf'][1] or '').lower():
-                continue      # the leaf is an already-masked value, not a code unit
-            cs = p['true_set']
+        preds = [p for p in scalar_predicates(f, b) if p['bits'] in (16, 32) and p['true_set'] is not None and
+                 not (p['leaf'][0] == 'call' and 'bitand' in (p['leaf'][1] or '').lower())]      # an already-masked value is not a code unit
+        if not preds:
+            continue
+        ctxs = contexts(f, b, preds)
+        for p in preds:
             N = p['N']
-            if len(cs) in (0, N):
-                continue
-            comp = cs.complement(0, N - 1)
+            ctx = ctxs[id(p)]
+            cs = p['true_set'] & ctx
+            comp = ctx - p['true_set']
+            if not cs or not comp:
+                continue          # decided by the context: not a test
             side = cs if not (cs - SUR) else (comp if not (comp - SUR) else None)
             if side is None or not side:
                 continue
